@@ -4,3 +4,7 @@
 #ifdef IR2C_NEED__ZNSt9exceptionD2Ev
 void _ZNSt9exceptionD2Ev(struct S_class_std_exception *e) { (void)e; }
 #endif
+#ifdef IR2C_NEED___errno_location
+static uint32_t ir2c_errno;
+uint32_t *__errno_location(void) { return &ir2c_errno; }
+#endif
